@@ -407,9 +407,16 @@ UNPRIV = ["setpriv", "--reuid=65534", "--regid=65534", "--clear-groups"]
 
 def fclones(args, scratch, cwd=None, stdin=b"", env_extra=None, timeout=120, unpriv=False):
     """unpriv: run as uid/gid 65534 (the scratch root is opened up for that user; the files keep their owner)."""
+    env = scratch.env(env_extra)
     if unpriv:
+        # (the helper programs are copied into the scratch area: the directory this framework lives in need not be
+        # reachable for that user - a snapshot below /root is not)
+        pub = os.path.join(u(scratch.root), "helpers")
+        if not os.path.isdir(pub):
+            shutil.copytree(os.path.join(VERIF, "helpers"), pub)
+        env["PATH"] = pub + ":" + env["PATH"]
         subprocess.run(["chmod", "-R", "a+rwX", scratch.root], check=False)
-    return run((UNPRIV if unpriv else []) + [FCLONES] + list(args), cwd=cwd or scratch.tree, env=scratch.env(env_extra), stdin=stdin,
+    return run((UNPRIV if unpriv else []) + [FCLONES] + list(args), cwd=cwd or scratch.tree, env=env, stdin=stdin,
                timeout=timeout)
 
 
